@@ -45,6 +45,18 @@ PROPS = {
                  "and per (origin, epoch, sequence) for genuine updates by info_monotone/stale_is_noop"],
         assumptions=["suspected-duplicate notices bypass the epoch test by design: for them at-most-once holds per UpdateID only"],
     ),
+    "C09": dict(
+        lean_props="Receptor.Props.C09",
+        engines=[dict(engine="verify", pkg=NETC, test="TestVerifVerify", n_quick=150, n_thorough=2000),
+                 dict(engine="cert", pkg=NETC, test="TestVerifCert", n_quick=20, n_thorough=200)],
+        corr_ops={"verify": ["verify"], "cert": ["issue"]},
+        facts=["rvf_pin_lengths", "rvf_steps", "rvf_usages", "rvf_name_rule", "rvf_name_compare", "tls_client_cfg", "tls_listener_expected"],
+        trusted=["crypto/x509 (parsing, chain building, validity, key usage, DNS-name verification) and crypto/tls: oracle booleans "
+                 "with ground truth known by construction of the certificates",
+                 "the TLS handshake itself (that VerifyPeerCertificate is called, that GetConfigForClient is honoured) is exercised by "
+                 "the mesh engine (thorough), not modelled"],
+        assumptions=["node IDs without ':' for the listener's client-name binding (the excluded point is a witness theorem)"],
+    ),
     "C10": dict(
         lean_props="Receptor.Props.C10",
         engines=[dict(engine="pkt", pkg=NETC, test="TestVerifPkt", n_quick=400, n_thorough=3000)],
